@@ -110,6 +110,16 @@ VerdictHD(p, e, s) ==
             ELSE IF e.pub # pk THEN V("wif-public-key", Cut(pk), Cut(e.pub))
             ELSE IF \E n \in 1..Len(p.cfg.nets) : e.fornet[n] # (p.cfg.nets[n].wif = e.netid) THEN V("wif-network", e.netid, e.fornet)
             ELSE OK
+    [] e.op = "GenerateSeed" ->
+         \* a seed of exactly the requested length for 16..64 bytes (two draws differ, it is not all zero, NewMaster takes
+         \* it), the documented error otherwise
+         LET legal == e.n >= 16 /\ e.n <= 64 IN
+         IF e.ok # legal THEN V("seed-length-contract", legal, e.ok)
+         ELSE IF ~e.ok THEN (IF e.err # "seed-length" THEN V("documented-error", "seed-length", e.err) ELSE OK)
+         ELSE IF e.len # e.n THEN V("seed-length", e.n, e.len)
+         ELSE IF ~e.distinct \/ e.allzero THEN V("seed-not-random", "two different draws", "equal or zero")
+         ELSE IF ~e.master THEN V("seed-refused-by-newmaster", TRUE, FALSE)
+         ELSE OK
     [] e.op = "HDPathStr" -> OK      \* replay-only op (TraceBase.ConcurrentReplayVerdict compares its repetitions)
     [] e.op = "ShortKeyString" ->
          \* a short scalar is padded on the left to 32 bytes in the 82-byte payload, and the string parses back to itself
